@@ -1,6 +1,7 @@
 package graphql
 
 import (
+	"sort"
 	"context"
 	"fmt"
 	"reflect"
@@ -559,6 +560,9 @@ func defineFieldMap(ttype Named, fieldMap Fields) (FieldDefinitionMap, error) {
 			}
 			fieldDef.Args = append(fieldDef.Args, fieldArg)
 		}
+		// the config is a map: order the arguments by name so that every
+		// build of the same schema reports them in the same order
+		sort.Slice(fieldDef.Args, func(i, j int) bool { return fieldDef.Args[i].PrivateName < fieldDef.Args[j].PrivateName })
 		resultFieldMap[fieldName] = fieldDef
 	}
 	return resultFieldMap, nil
@@ -1000,6 +1004,8 @@ func (gt *Enum) defineEnumValues(valueMap EnumValueConfigMap) ([]*EnumValueDefin
 		}
 		values = append(values, value)
 	}
+	// the config is a map: keep the values in a reproducible order
+	sort.Slice(values, func(i, j int) bool { return values[i].Name < values[j].Name })
 	return values, nil
 }
 func (gt *Enum) Values() []*EnumValueDefinition {
